@@ -2,6 +2,7 @@
 from __future__ import annotations
 
 import itertools
+import contextlib
 from collections import Counter, defaultdict
 
 import numpy as np
@@ -96,13 +97,43 @@ def surrogate_cases(draw, kind):
     if kind != "stub":
         hs["losses"][0] = abs(hs["losses"][0]) + 1.0
         hs["losses"][1] = 0.25
+    large = 0
+    if kind != "stub" and draw(st.integers(0, 19)) == 0:
+        # a long history, beyond the Gaussian process's 500-point warning threshold: every row is still training data
+        large = draw(st.sampled_from([500, 501, 513, 560]))
+        if kind == "gp":
+            s["restarts"] = 0
     # an earlier call on the same sampler object, with another history of the same length (stale-fit detection)
     n = len(hs["idx"])
     before = draw(st.one_of(st.none(), gen.history_spec(d, n, max_rows=n, losses="finite")))
     if before is not None and kind != "stub":
         before["losses"][0] = abs(before["losses"][0]) + 2.0
         before["losses"][1] = 0.5
-    return {"space": sp, "sampler": s, "history": hs, "preds": preds, "before": before}
+    return {"space": sp, "sampler": s, "history": hs, "preds": preds, "before": None if large else before, "large": large}
+
+
+@contextlib.contextmanager
+def estimator_spy(kind, rec):
+    """Record the training inputs that actually reach the third-party estimator of a built-in surrogate sampler."""
+    if kind == "stub":
+        yield
+        return
+    if kind == "gp":
+        from sklearn.gaussian_process import GaussianProcessRegressor as Est
+    elif kind == "rf":
+        from sklearn.ensemble import RandomForestClassifier as Est
+    else:
+        from xgboost import XGBRegressor as Est
+    orig = Est.fit
+
+    def fit(self, X, y, *a, **k):  # noqa: N803
+        rec["estimatorX"] = np.array(X, copy=True)
+        return orig(self, X, y, *a, **k)
+    Est.fit = fit
+    try:
+        yield
+    finally:
+        Est.fit = orig
 
 
 def check_surrogate(ctx: Ctx, case):
@@ -112,6 +143,15 @@ def check_surrogate(ctx: Ctx, case):
     sub = f"surrogate_{kind}"
     space = gen.make_space(case["space"])
     pts, losses = gen.build_history(space, case["history"])
+    if case.get("large"):
+        # repeat the drawn rows cyclically (shifted along the grid) up to the requested length; losses vary smoothly
+        n0, L = len(pts), case["large"]
+        g = space.param_grid
+        idx = np.array([[(int(np.argmin(np.abs(g[j] - pts[i % n0, j]))) + i // n0) % len(g[j]) for j in range(space.dims)]
+                        for i in range(L)])
+        pts = np.array([[g[j][idx[i, j]] for j in range(space.dims)] for i in range(L)], dtype=float)
+        losses = np.array([float(losses[i % n0]) + 0.001 * i for i in range(L)])
+        losses[0] = -1.0          # the best evaluation is the oldest one
     bs = case["sampler"]["bs"]
     rec = {}
     if kind == "stub":
@@ -144,7 +184,7 @@ def check_surrogate(ctx: Ctx, case):
 
         sampler.fit, sampler.predict = fit, predict
     try:
-        with watchdog(30, f"{kind}.sample"), np.errstate(all="ignore"):
+        with watchdog(120 if case.get("large") else 30, f"{kind}.sample"), np.errstate(all="ignore"), estimator_spy(kind, rec):
             if case.get("before"):
                 pts_b, losses_b = gen.build_history(space, case["before"])
                 sampler.sample(space, pts_b, losses_b)
@@ -168,6 +208,15 @@ def check_surrogate(ctx: Ctx, case):
     if not (np.array_equal(rec["fitX"], pts) and rec["fity"].shape == losses.shape and np.array_equal(rec["fity"], losses)):
         ctx.fail("C16/surrogate-fit-data", f"{kind}: fit() did not receive exactly the given history", sub, case)
         return
+    if "estimatorX" in rec:
+        ex = np.asarray(rec["estimatorX"], dtype=float)
+        if ex.shape != pts.shape or sorted(map(tuple, ex.tolist())) != sorted(map(tuple, pts.tolist())):
+            ctx.fail("C16/surrogate-fit-data", f"{kind}: the underlying estimator was trained on {ex.shape[0]} points, the history "
+                     f"has {pts.shape[0]} (not exactly the given history)", sub, case)
+            return
+        ctx.classes[f"{sub}:estimator-training-set-checked"] += 1
+        if case.get("large"):
+            ctx.classes[f"{sub}:history>={case['large']}"] += 1
     pool = rec["pool"]
     if out.shape != (bs, space.dims) or len(q) != len(pool):
         ctx.fail("C16/surrogate-shape", f"{kind}: returned shape {out.shape}, pool {pool.shape}, predictions {q.shape}", sub,
